@@ -30,6 +30,7 @@ Definition names_items_stmt (o : opts) (d : list item) : Prop :=
 Lemma names_ok_nodes o : (forall i, names_item_stmt o i) /\ (forall d, names_items_stmt o d).
 Proof.
   assert (HT : forall s, names_item_stmt o (IText s)) by (intros s p _; reflexivity).
+  assert (HLt : forall s, names_item_stmt o (ILt s)) by (intros s p _; reflexivity).
   assert (HCo : forall b, names_item_stmt o (IComment b)) by (intros s p _; reflexivity).
   assert (HCd : forall b, names_item_stmt o (ICData b)) by (intros s p _; reflexivity).
   assert (HPi : forall ps, names_item_stmt o (IPI ps)) by (intros s p _; reflexivity).
@@ -46,8 +47,8 @@ Proof.
   { intros i d Hi Hd p H. cbn [forallb] in H. apply andb_true_iff in H. destruct H as [H1 H2].
     cbn [nodes_items]. rewrite forallb_app. rewrite (Hi p H1), (Hd _ H2). reflexivity. }
   split.
-  - exact (item_ind2 _ _ HT HCo HCd HPi HPa HSe HVo HRa HQ0 HQ1).
-  - exact (items_ind2 _ _ HT HCo HCd HPi HPa HSe HVo HRa HQ0 HQ1).
+  - exact (item_ind2 _ _ HT HLt HCo HCd HPi HPa HSe HVo HRa HQ0 HQ1).
+  - exact (items_ind2 _ _ HT HLt HCo HCd HPi HPa HSe HVo HRa HQ0 HQ1).
 Qed.
 
 Lemma doc_ok_parts o d : doc_ok o d = true ->
@@ -300,6 +301,7 @@ Proof.
   assert (Hnone : forall i, (forall p, nodes_item p i = []) -> wf_item_stmt i).
   { intros i Hn p lo hi H1 H2 rest Hr. rewrite Hn. cbn [app]. eapply forest_wf_weaken; [|exact Hr]. lia. }
   assert (HT : forall s, wf_item_stmt (IText s)) by (intros; apply Hnone; reflexivity).
+  assert (HLt : forall s, wf_item_stmt (ILt s)) by (intros; apply Hnone; reflexivity).
   assert (HCo : forall b, wf_item_stmt (IComment b)) by (intros; apply Hnone; reflexivity).
   assert (HCd : forall b, wf_item_stmt (ICData b)) by (intros; apply Hnone; reflexivity).
   assert (HPi : forall ps, wf_item_stmt (IPI ps)) by (intros; apply Hnone; reflexivity).
@@ -331,8 +333,8 @@ Proof.
   { intros i d Hi Hd p lo hi H1 H2. unfold render in *. cbn [flat_map nodes_items] in *. fold (render d) in *.
     rewrite app_length in H2. apply Hi; [exact H1|lia|]. apply Hd; lia. }
   split.
-  - exact (item_ind2 _ _ HT HCo HCd HPi HPa HSe HVo HRa HQ0 HQ1).
-  - exact (items_ind2 _ _ HT HCo HCd HPi HPa HSe HVo HRa HQ0 HQ1).
+  - exact (item_ind2 _ _ HT HLt HCo HCd HPi HPa HSe HVo HRa HQ0 HQ1).
+  - exact (items_ind2 _ _ HT HLt HCo HCd HPi HPa HSe HVo HRa HQ0 HQ1).
 Qed.
 
 Theorem forest_of_wf d : forest_wf 0 (N.of_nat (length (render d))) (forest_of d) = true.
